@@ -7,7 +7,7 @@
    direction are not touched, and that the result is in the box under exact comparisons.
    The first-local-minimiser clause is a statement about real numbers: it is proved on the exact-rational model (C08.v). *)
 From Coq Require Import List Bool Arith Sorted Floats.PrimFloat.
-From LBFGSB Require Generated.CauchyHead Generated.CauchyScalars Generated.CauchyStep Model.NumpyOps.
+From LBFGSB Require Generated.CauchyHead Generated.CauchyScalars Generated.CauchyStep Generated.CauchyInit Model.NumpyOps Proofs.CauchyWhole.
 From LBFGSB Require Import Base.FloatOrd Model.FloatVec Model.FCauchy Proofs.DriverBox Proofs.FCauchyFloat Proofs.FCauchyProofs.
 Import ListNotations.
 
@@ -173,9 +173,61 @@ Theorem C08f_loop_unfold_from_source : forall (O : oracles) (x g lb ub : vec) (t
        let '(tn, dn) := G.cauchy_advance t rest (s_told s1) in loop O x g lb ub theta W uf t f2_org rest tn dn s1.
 Proof. intros. cbn [loop]. unfold S.cauchy_break, G.cauchy_advance, tnth. destruct (ltb (s_dtm s) dt); [reflexivity|]. cbv zeta. cbn [s_told step]. reflexivity. Qed.
 
+(* ... and so is everything between the ordering of the breakpoints and the loop: c = 0, f' = -d.d, f'' = -theta f', its correction
+   by the BLAS answer, f2_org, delta_t_min, the early return without breakpoint and the first breakpoint (Generated/CauchyInit.v).
+   With the head, the loop pass, the break test, the advance, the tail and the final move above, EVERY statement of
+   get_cauchy_point outside its logging is translated from the source, and the model is their composition: *)
+Module I := LBFGSB.Generated.CauchyInit.
+Theorem C08f_init_from_source : forall (O : oracles) (x g lb ub : vec) (theta : float) (W : list vec) (uf : bool),
+  let t := breakpoints x g lb ub in let d := dir0 t g in let idx := sorted_pos t in let p := o_WTd O d in
+  let '(fp, fs, f2, dtm) := I.cauchy_init (fun a _ => o_dd O a) (o_pMp O) theta uf d p in
+  fgcp_full O x g lb ub theta W uf =
+  match idx with
+  | [] => let '(xcp, c) := I.cauchy_no_breakpoint x p in mkres xcp c [] 0 dtm false false
+  | i0 :: _ =>
+      let '(t_cur, dt, told0) := I.cauchy_first t i0 in
+      let '(s, found) := loop O x g lb ub theta W uf t f2 idx t_cur dt (mkst x (snd (I.cauchy_no_breakpoint x p)) p d fp fs dtm told0 []) in
+      let dtm1 := if ltb (s_dtm s) 0 then 0%float else s_dtm s in
+      let told := add (s_told s) dtm1 in
+      mkres (final_move told (s_xcp s) x (s_d s) lb ub) (vip (fun cj pj => add cj (mul dtm1 pj)) (s_c s) (s_p s)) (s_fixed s) told dtm1 found true
+  end.
+Proof. intros. cbv zeta. unfold fgcp_full, I.cauchy_init, I.cauchy_first, I.cauchy_no_breakpoint, tnth, vzeros, fzero. cbv zeta. destruct (sorted_pos _); reflexivity. Qed.
+
+(* THE WHOLE FUNCTION.  get_cauchy_point assembled from the translated pieces only (Proofs/CauchyWhole.v: get_cauchy_point_src -
+   the head, the initialisation, the `while` as a recursion over the sorted breakpoint indices whose body is the translated break
+   test, loop pass and advance, the translated tail and final move) returns exactly what the binary64 model fgcp returns, for
+   arrays of one length: the theorems C08f_* above are therefore theorems about the translated source. *)
+Theorem C08f_whole_from_source : forall (O : oracles) (x g lb ub : vec) (theta : float) (W : list vec) (uf : bool),
+  length g = length x -> length lb = length x -> length ub = length x ->
+  CauchyWhole.get_cauchy_point_src O x g lb ub theta W uf = fgcp O x g lb ub theta W uf.
+Proof.
+  intros O x g lb ub theta W uf Hg Hl Hu. unfold CauchyWhole.get_cauchy_point_src, fgcp.
+  rewrite (C08f_head_from_source x g lb ub Hg Hl Hu).
+  pose proof (C08f_init_from_source O x g lb ub theta W uf) as HI. cbv zeta in HI.
+  destruct (I.cauchy_init (fun a _ => o_dd O a) (o_pMp O) theta uf (dir0 (breakpoints x g lb ub) g) (o_WTd O (dir0 (breakpoints x g lb ub) g))) as [[[fp fs] f2] dtm] eqn:EI.
+  rewrite HI. clear HI.
+  destruct (sorted_pos (breakpoints x g lb ub)) as [|i0 rest] eqn:Eidx; [reflexivity|].
+  destruct (I.cauchy_first (breakpoints x g lb ub) i0) as [[t_cur dt] told0] eqn:EF.
+  set (s0 := mkst x (snd (I.cauchy_no_breakpoint x (o_WTd O (dir0 (breakpoints x g lb ub) g)))) (o_WTd O (dir0 (breakpoints x g lb ub) g))
+                  (dir0 (breakpoints x g lb ub) g) fp fs dtm told0 []).
+  change (x, snd (I.cauchy_no_breakpoint x (o_WTd O (dir0 (breakpoints x g lb ub) g))), o_WTd O (dir0 (breakpoints x g lb ub) g),
+          dir0 (breakpoints x g lb ub) g, fp, fs, dtm, told0) with (CauchyWhole.proj s0).
+  rewrite (CauchyWhole.loop_eq O x g lb ub theta W uf (breakpoints x g lb ub) f2 (i0 :: rest) t_cur dt s0).
+  destruct (FCauchyProofs.loop_shapes O x g lb ub theta W uf (breakpoints x g lb ub) f2 (i0 :: rest) t_cur dt s0) as (Lx & _ & _ & Ld).
+  destruct (loop O x g lb ub theta W uf (breakpoints x g lb ub) f2 (i0 :: rest) t_cur dt s0) as [s found]. cbn [fst snd] in *.
+  unfold CauchyWhole.proj. unfold S.cauchy_tail, S.cauchy_clamp. cbv zeta. cbn [r_xcp r_c].
+  rewrite CauchyWhole.vinplace_axpy. f_equal.
+  apply C08f_final_move_from_source.
+  - rewrite Lx. reflexivity.
+  - rewrite Ld, Lx. unfold s0. cbn [s_d s_xcp]. unfold dir0. rewrite FCauchyProofs.vmap2_length, FCauchyProofs.breakpoints_length. rewrite Hg, Hl, Hu. repeat rewrite Nat.min_id. reflexivity.
+  - rewrite Lx. exact Hl.
+  - rewrite Lx. exact Hu.
+Qed.
+
 Print Assumptions C08f_head_from_source.
 Print Assumptions C08f_loop_scalars_from_source.
 Print Assumptions C08f_final_move_from_source.
+Print Assumptions C08f_whole_from_source.
 Print Assumptions C08f_feasible.
 Print Assumptions C08f_sorted_breakpoints.
 Print Assumptions C08f_fixed_prefix.
